@@ -71,6 +71,18 @@ one, re-opens this), and the by-design pairs are disjoint from the strings the d
 theorem reads_tie : readsTieOK = true ∧ readsExactOK = true ∧ byDesignDisjointOK = true ∧ emptyOK = true :=
   ⟨readsTieOK_true, readsExactOK_true, byDesignDisjointOK_true, emptyOK_true⟩
 
+/-- `request.copy()` is the shallow copy the model takes it for: a new environ dict holding every
+plain entry and every cache entry of the original, the cached values being the very objects of the
+original; `request[K] = <same value>` fires nothing, `del request[K]` is `request[K] = ''` followed
+by the removal (and fires nothing when the key held `''`).  Probed on the live code. -/
+theorem copy_and_setitem_as_modelled :
+    Gen.ecCopyNewDict = true ∧ Gen.ecCopyPlain = true ∧ Gen.ecCopyCarriesCache = true ∧
+    (Gen.ecProps.all fun row => row.key == "ombott.app" || row.key == "ombott.route" || row.key == "route.url_args" ||
+        Gen.ecCopyShared.contains row.key) = true ∧
+    Gen.ecUnchangedNoop = true ∧ Gen.ecDelViaSet = true ∧ Gen.ecDelEmptyNoop = true ∧
+    (Gen.ecProps.all fun row => row.readOnly) = true := by
+  decide +kernel
+
 /-! ### the theorem -/
 
 /-- **The cache is never observable.**  Take any request objects (a request and copies of it, with
